@@ -85,7 +85,7 @@ def run(ctx):
                 ok = not filt
                 msg = f'replay of {v} writes allocation-queue state ({sorted(f for f in rw[v] if DOMAINS.get(f) == "queue")}); prune must keep it always (observed filter {sorted(filt)})'
             ctx.ob('R12.1', f'{v}|{d}', ok, msg, pj.loc())
-    ctx.floor('R12.1', n, 12, 'variant x domain pairs')
+    ctx.floor('R12.1', n, 8, 'variant x domain pairs')
     # records that are filtered by job liveness must actually be job records (sanity of the derivation)
     for v, filt in pf.items():
         if 'job' in filt:
@@ -149,7 +149,7 @@ def run(ctx):
                 ctx.ob('R12.4', 'prune|append without truncation', is_none, 'create_or_append(.., None): the pruned journal is appended to, not truncated', b.loc(coa[0]))
             ctx.ob('R12.4', 'prune|tmp removed on error', bool(rm) and rm[0] in b.reach_from(pr), 'a failed prune removes the temp file and leaves the journal untouched', b.loc(rm[0]) if rm else b.loc())
             dr = [x for x in b.reachable() if b.term[x] and b.term[x]['k'] == 'call' and callee_of(b.term[x]) == 'core::mem::drop' and x not in b.reach_from(pr)]
-    ctx.floor('R12.4', nchecked, 2, 'JournalReader::open sites in the journal thread')
+    ctx.floor('R12.4', nchecked, 1, 'JournalReader::open sites in the journal thread')
 
     # ---- R12.5
     hp = [prog.bodies[p] for p in prog.with_closures(CLIENT + 'handle_prune_journal')]
